@@ -112,7 +112,7 @@ func init() {
 	register(&spec{
 		ID: "C14", Title: "Parallel policy never waits on other pods when scaling",
 		Runs: []runSpec{
-			step("step", []int{2, 2, 1, oPolicyParallel | oThreeRevs, mC14}, []int{3, 2, 1, oPolicyParallel | oThreeRevs, mC14},
+			step("step", []int{1, 2, 1, oPolicyParallel | oThreeRevs, mC14}, []int{2, 2, 1, oPolicyParallel | oThreeRevs, mC14},
 				[]string{"every vacant desired ordinal is created in the same reconcile", "every live pod outside the desired set is deleted in the same reconcile"},
 				[]string{"parallel reconcile checked"}),
 		},
